@@ -29,7 +29,7 @@ LEVEL_TEXT = ('Theorems (Props/C04.v, all closed under the global context) about
               '(incl. empty ones) stacking the pieces reproduces the array (C04_stack_split_inverse), slicing the stack of ANY list of arrays at the '
               'extent of the i-th reproduces the i-th (C04_slice_of_stack_is_piece), the stacked size is the sum (C04_stack_length), one piece is the '
               'identity (C04_stack_single), stacking is associative (C04_stack_assoc), and at ANY axis the piece is the C02 orthogonal slice with a unit-stride '
-              'selector on that axis, so both laws are also stated through the slicing model (C04_piece_is_slice, C04_stack_of_slices, C04_slice_of_stack). Tie H: whole-file model (impl_stack, split_file) vs '
+              'selector on that axis, so both laws are also stated through the slicing model (C04_piece_is_slice, C04_stack_of_slices, C04_slice_of_stack); concatenation is the only array whose slices at the extents are the parts (C04_concat_unique); WHOLE FILE: impl_stack (split_file f k lens) k returns every variable of f and its dimension lengths for every well-formed file, dimension and partition (C04_stack_split_file). Tie H: whole-file model (impl_stack, split_file) vs '
               'library on every generated case incl. errors; the laws are also checked directly on the library output (checkS) and by a numpy oracle.')
 LEVEL_NOTE = ('Trusted: Coq kernel + vm_compute; harness; numpy concatenate semantics as modelled; netCDF4 save/reopen of the pieces in the mfopen cases '
               '(round trip of int32 data, masks via _FillValue). open_mfdataset(stackdim=None) always raises on the unchanged tree (for/else) and is not exercised.')
